@@ -497,6 +497,8 @@ def build_tree(paths):
             if not tg or not fg:
                 raise TErr("internal: a branch with one side only")
             node = ("if", ev0[idx][1], rec(tg, idx + 1), rec(fg, idx + 1))
+        elif ev0[idx][0] == "unwrap":
+            node = ("unwrap", ev0[idx][1], ev0[idx][2], rec(group, idx + 1))
         else:
             node = ("bind", ev0[idx][1], ev0[idx][2], rec(group, idx + 1))
         if guards:
@@ -515,6 +517,8 @@ def emit_tree(node, ind):
         return "%sif %s then\n%s\n%selse\n%s" % (ind, node[1], emit_tree(node[2], ind + "  "), ind, emit_tree(node[3], ind + "  "))
     if k == "bind":
         return "%sOut.bind (%s) (fun %s =>\n%s)" % (ind, node[1], node[2], emit_tree(node[3], ind + "  "))
+    if k == "unwrap":
+        return "%smatch %s with\n%s| none => .panic \"unwrap\"\n%s| some %s =>\n%s" % (ind, node[1], ind, ind, node[2], emit_tree(node[3], ind + "  "))
     raise TErr("internal: tree node %s" % k)
 
 
@@ -546,6 +550,8 @@ class Machine(object):
         self.nloops = 0
         self.in_loop = False
         self.depth = 0
+        self.selfv = None
+        self.prims = {}
 
     # ---- environment
     def lookup(self, name):
@@ -673,7 +679,7 @@ class Machine(object):
         segs = e[1]
         if len(segs) == 1:
             if segs[0] == "self":
-                return ("self",)
+                return ("self",) if self.tr.mode == "bb" else self.selfv
             v = self.lookup(segs[0])
             if v is not None:
                 return v
@@ -808,7 +814,7 @@ class Machine(object):
                 return self.call_fn(f, None, [self.ev(a) for a in argx])
         if len(segs) == 2 and segs[1] == "to_usize" and not argx and self.tr.mode == "bb" and segs[0] == self.tr.size_param:
             return ("nat", "b")
-        if len(segs) == 2 and (segs[0] in self.tsubst or segs[0] == "Self"):
+        if len(segs) == 2 and (segs[0] in self.tsubst or segs[0] == "Self") and self.tr.mode == "bb":
             ty = self.tsubst.get(segs[0], segs[0])
             f = self.tr.assoc_fn(ty, segs[1])
             return self.call_fn(f, None, [self.ev(a) for a in argx])
@@ -858,7 +864,7 @@ class Machine(object):
         targs = e[4] if len(e) > 4 else []
         recv = self.ev(e[1])
         k = recv[0]
-        if k == "self":
+        if k == "self" or (self.tr.mode != "bb" and k in ("obj", "default")):
             return self.tr.self_method(self, e, name, argx, targs)
         if name == "len" and not argx:
             if k == "place":
@@ -902,6 +908,11 @@ class Machine(object):
             return self.ev(tail) if tail is not None else UNIT
         finally:
             self.scopes.pop()
+
+    def exec_block_open(self, stmts, tail):
+        for st in stmts:
+            self.exec_stmt(st)
+        return self.ev(tail) if tail is not None else UNIT
 
     def exec_stmt(self, st):
         k = st[0]
@@ -1288,6 +1299,359 @@ class BBTranslator(object):
         raise TErr("returned value of kind %s" % v[0])
 
 
+
+# =========================================================================== provided / blanket methods of digest and cipher
+
+class TraitTranslator(object):
+    """provided methods of traits and methods of blanket impls (`impl<D: A + B> T for D`): straight-line compositions of
+    REQUIRED methods, which become Out-valued parameters of the generated definition"""
+    mode = "traits"
+    size_param = None
+
+    def __init__(self, crate, files):
+        self.crate, self.files = crate, files
+
+    def free_fn(self, name):
+        return None
+
+    def assoc_fn(self, ty, name):
+        raise TErr("associated function %s::%s" % (ty, name))
+
+    def traits(self, name):
+        return [b for f in self.files for b in f.blocks if b.kind == "trait" and b.trait == name]
+
+    def blankets(self, name):
+        return [b for f in self.files for b in f.blocks if b.kind == "impl" and b.trait == name
+                and any(g[0] == b.ty for g in b.gens)]
+
+    def block_of(self, kind, trait):
+        hits = self.traits(trait) if kind == "trait" else self.blankets(trait)
+        if len(hits) != 1:
+            raise TErr("%d %s blocks of %s in crate %s" % (len(hits), kind, trait, self.crate))
+        return hits[0]
+
+    def candidates(self, blk):
+        """the traits whose methods `self.m()` may mean inside blk, bounds first (Rust: methods of the bounds of a type
+        parameter rank like inherent methods)"""
+        if blk.kind == "impl":
+            bounds = [g[1] for g in blk.gens if g[0] == blk.ty]
+            bl = [x.strip().split("<")[0].strip() for x in (bounds[0].split("+") if bounds else [])]
+            return [x for x in bl if x] + [blk.trait]
+        return list(blk.supers) + [blk.trait]
+
+    # ---- types
+    def lean_ty(self, ty):
+        t = ty.replace(" ", "")
+        if t in ("Self", "D"):
+            return "S"
+        if "GenericArray<u8" in t or t.startswith("Output<"):
+            return "O"
+        if t in ("&[u8]", "&mut[u8]", "implAsRef<[u8]>"):
+            return BYTES_TY
+        if t == "usize":
+            return "Nat"
+        if t == "T":
+            return "T"
+        if t == "()" or t == "":
+            return "Unit"
+        m = re.match(r"^Result<(.*),(\w+)>$", t)
+        if m:
+            return "Option (%s)" % self.lean_ty(m.group(1))
+        raise TErr("type `%s` is not in the reading table" % ty)
+
+    def prim(self, m, trait, f):
+        """(name, Lean type, result shape) of a required method used as a parameter"""
+        name = "%s_%s" % (trait, f.name)
+        ins, outs = [], []
+        for pn, pt in f.params:
+            if pn == "self":
+                ins.append("S")
+                if pt == "&mut self":
+                    outs.append(("self", "S"))
+            else:
+                ins.append(self.lean_ty(pt))
+                if pt.replace(" ", "").startswith("&mut"):
+                    outs.append((pn, self.lean_ty(pt)))
+        if f.ret:
+            outs.append(("ret", self.lean_ty(f.ret)))
+        rty = " × ".join(t if " " not in t or t.startswith("List") else "(%s)" % t for _, t in outs) if outs else "Unit"
+        m.prims[name] = "(%s : %s)" % (name, " → ".join(ins + ["Out (%s)" % rty]))
+        return name, outs
+
+    # ---- calls
+    def coerce_param(self, m, f, name, ty, v):
+        return v
+
+    def resolve(self, m, trait, name):
+        """("inline", Fn) | ("prim", trait, Fn)"""
+        for b in self.blankets(trait):
+            if name in b.fns:
+                return ("inline", b.fns[name])
+        for b in self.traits(trait):
+            if name in b.fns:
+                f = b.fns[name]
+                return ("inline", f) if f.body is not None else ("prim", trait, f)
+        return None
+
+    def call_method(self, m, traits, recvx, name, argx):
+        for tr in traits:
+            if tr == "Clone" and name == "clone" and not argx:
+                return m.ev(recvx)
+            r = self.resolve(m, tr, name)
+            if r is None:
+                continue
+            f = r[-1]
+            if r[0] == "inline":
+                return self.inline(m, f, recvx, argx)
+            return self.call_prim(m, tr, f, recvx, argx)
+        raise TErr("method `%s` not found in %s" % (name, ", ".join(traits)))
+
+    def strip(self, x):
+        while x[0] in ("addr", "paren", "deref"):
+            x = x[2] if x[0] == "addr" else x[1]
+        return x
+
+    def writeback(self, m, x, v):
+        x = self.strip(x)
+        if x == ("path", ["self"]):
+            m.selfv = v
+        elif x[0] == "path" and len(x[1]) == 1 and m.lookup(x[1][0]) is not None:
+            m.assign_local(x[1][0], v)
+        else:
+            raise TErr("a `&mut` argument that is not a variable")
+
+    def typed(self, m, v, ty, x=None):
+        """resolve a `Default::default()` placeholder by the type it is used at"""
+        if v[0] == "default":
+            lt = self.lean_ty(ty)
+            if lt == "O":
+                m.prims["default_out"] = "(default_out : O)"
+                v = ("obj", "default_out")
+            elif lt == "S":
+                v = self.default_self(m)
+            else:
+                raise TErr("Default::default() at type %s" % ty)
+            if x is not None:
+                self.writeback(m, x, v)
+        if v[0] == "bytes":
+            return ("obj", v[1])
+        if v[0] != "obj":
+            raise TErr("argument of kind %s" % v[0])
+        return v
+
+    def default_self(self, m):
+        m.prims["Default_default"] = "(Default_default : Out S)"
+        m.nloops += 1
+        r = "r%d" % m.nloops
+        m.o.events.append(("bind", "Default_default", r))
+        return ("obj", r)
+
+    def call_prim(self, m, trait, f, recvx, argx):
+        name, outs = self.prim(m, trait, f)
+        params = [p for p in f.params if p[0] != "self"]
+        if len(params) != len(argx):
+            raise TErr("%s: argument count" % name)
+        args = [self.typed(m, m.ev(recvx), "Self", recvx)[1]]
+        for (pn, pt), x in zip(params, argx):
+            args.append(self.typed(m, m.ev(x), pt, x)[1])
+        m.nloops += 1
+        r = "r%d" % m.nloops
+        m.o.events.append(("bind", "%s %s" % (name, " ".join(args)), r))
+        ret = UNIT
+        for i, (what, ty) in enumerate(outs):
+            pj = proj(r, i, len(outs))
+            if what == "self":
+                self.writeback(m, recvx, ("obj", pj))
+            elif what == "ret":
+                ret = ("option", pj, ty) if ty.startswith("Option") else ("obj", pj)
+            else:
+                k = [pn for pn, _ in params].index(what)
+                self.writeback(m, argx[k], ("obj", pj))
+        return ret
+
+    def inline(self, m, f, recvx, argx):
+        """inline a provided / blanket method: `self` of the callee is the receiver (written back when `&mut self`)"""
+        params = [p for p in f.params if p[0] != "self"]
+        selfp = [p for p in f.params if p[0] == "self"]
+        args = [m.ev(x) for x in argx]
+        recv = m.ev(recvx) if selfp else None
+        saved_self, saved_blk = m.selfv, m.blk
+        saved_scopes = m.scopes
+        m.scopes = [{}]
+        m.depth += 1
+        if m.depth > 8:
+            raise TErr("call depth")
+        try:
+            m.selfv, m.blk = recv, f.owner
+            for (pn, pt), v in zip(params, args):
+                m.define(pn, v)
+            stmts, tail = f.parse()
+            try:
+                ret = m.exec_block_open(stmts, tail)
+            except ReturnSig as r:
+                ret = r.value
+            newself = m.selfv
+            finals = [m.lookup(pn) for pn, _ in params]
+        finally:
+            m.selfv, m.blk, m.scopes = saved_self, saved_blk, saved_scopes
+            m.depth -= 1
+        if selfp and selfp[0][1] == "&mut self":
+            self.writeback(m, recvx, newself)
+        for (pn, pt), x, v in zip(params, argx, finals):
+            if pt.replace(" ", "").startswith("&mut"):
+                self.writeback(m, x, v)
+        return ret
+
+    def self_method(self, m, e, name, argx, targs):
+        if name == "unwrap" and not argx:
+            return self.method_hook(m, e, m.ev(e[1]))
+        return self.call_method(m, self.candidates(m.blk), e[1], name, argx)
+
+    def method_hook(self, m, e, recv):
+        if e[2] == "unwrap" and not e[3] and recv[0] == "option":
+            m.nloops += 1
+            v = "v%d" % m.nloops
+            m.o.events.append(("unwrap", recv[1], v))
+            return UNIT if recv[2] == "Option (Unit)" else ("obj", v)
+        raise TErr("method `.%s` on a %s is not in the reading table" % (e[2], recv[0]))
+
+    def call_hook(self, m, e):
+        segs, argx = e[1], e[2]
+        if segs in (["Default", "default"], ["Self", "default"]) and not argx:
+            return ("default",) if segs[0] == "Default" else self.default_self(m)
+        if len(segs) == 2 and argx and self.traits(segs[0]):
+            return self.call_method(m, [segs[0]], argx[0], segs[1], argx[1:])
+        if len(segs) == 3 and segs[0] == "Self" and segs[2] == "to_usize" and not argx:
+            m.prims["const_" + segs[1]] = "(const_%s : Nat)" % segs[1]
+            return ("nat", "const_" + segs[1])
+        raise TErr("call of `%s` is not in the reading table" % "::".join(segs))
+
+    def qcall_hook(self, m, e):
+        ty, tr, name, argx = e[1], e[2], e[3], e[4]
+        if ty == ("path", ["Self"], []) and tr[0] == "path" and argx:
+            return self.call_method(m, [tr[1][-1]], argx[0], name, argx[1:])
+        raise TErr("qualified call of `%s`" % name)
+
+    def translate(self, lean, kind, trait, method):
+        blk = self.block_of(kind, trait)
+        f = blk.fns.get(method)
+        if f is None or f.body is None:
+            raise TErr("%s %s::%s has no body" % (kind, trait, method))
+        params = [p for p in f.params if p[0] != "self"]
+        selfp = [p for p in f.params if p[0] == "self"]
+        lparams, outs_ty = [], []
+        if selfp:
+            lparams.append("(self : S)")
+
+        def run(oracle):
+            m = Machine(self, oracle)
+            m.blk = blk
+            m.selfv = ("obj", "self") if selfp else None
+            for pn, pt in params:
+                m.define(pn, ("obj", pn))
+            stmts, tail = f.parse()
+            try:
+                ret = m.exec_block_open(stmts, tail)
+            except ReturnSig as r:
+                ret = r.value
+            outs = []
+            if selfp and selfp[0][1] == "&mut self":
+                outs.append(m.selfv[1])
+            for pn, pt in params:
+                if pt.replace(" ", "").startswith("&mut"):
+                    outs.append(m.lookup(pn)[1])
+            if f.ret:
+                if ret[0] == "default":
+                    ret = self.typed(m, ret, f.ret)
+                if ret[0] not in ("obj", "nat"):
+                    raise TErr("returned value of kind %s" % ret[0])
+                outs.append(ret[1])
+            elif ret != UNIT:
+                raise TErr("unit method returns a %s" % ret[0])
+            run.prims = dict(m.prims)
+            return ".ok %s" % (tuple_txt(outs) if len(outs) > 1 else "(%s)" % (outs[0] if outs else "()"))
+
+        paths = explore(run)
+        tree = build_tree(paths)
+        tys = []
+        if selfp and selfp[0][1] == "&mut self":
+            tys.append("S")
+        for pn, pt in params:
+            lparams.append("(%s : %s)" % (pn, self.lean_ty(pt)))
+            if pt.replace(" ", "").startswith("&mut"):
+                tys.append(self.lean_ty(pt))
+        if f.ret:
+            tys.append(self.lean_ty(f.ret))
+        prims = [run.prims[k] for k in sorted(run.prims)]
+        alltxt = " ".join(prims + lparams + tys)
+        used = [v for v in ("S", "O", "T") if re.search(r"(?<![A-Za-z0-9_.])%s(?![A-Za-z0-9_])" % v, alltxt)]
+        tvars = "{%s : Type} " % " ".join(used) if used else ""
+        sig = "%s%s : Out (%s)" % (tvars, " ".join(prims + lparams), " × ".join(tys) if tys else "Unit")
+        doc = "%s `%s::%s` (%s)" % (self.crate, trait, method, "blanket impl" if kind == "impl" else "provided method")
+        return Def(lean, doc, sig, emit_tree(tree, "  "))
+
+
+TRAIT_METHODS = [
+    # (crate, lean name, block kind, trait, method)
+    ("digest", "digest_FixedOutput_finalize_fixed", "trait", "FixedOutput", "finalize_fixed"),
+    ("digest", "digest_FixedOutput_finalize_fixed_reset", "trait", "FixedOutput", "finalize_fixed_reset"),
+    ("digest", "digest_FixedOutput_finalize_into", "impl", "FixedOutput", "finalize_into"),
+    ("digest", "digest_FixedOutput_finalize_into_reset", "impl", "FixedOutput", "finalize_into_reset"),
+    ("digest", "digest_Update_chain", "trait", "Update", "chain"),
+    ("digest", "digest_Digest_new", "impl", "Digest", "new"),
+    ("digest", "digest_Digest_update", "impl", "Digest", "update"),
+    ("digest", "digest_Digest_chain", "impl", "Digest", "chain"),
+    ("digest", "digest_Digest_finalize", "impl", "Digest", "finalize"),
+    ("digest", "digest_Digest_finalize_reset", "impl", "Digest", "finalize_reset"),
+    ("digest", "digest_Digest_reset", "impl", "Digest", "reset"),
+    ("digest", "digest_Digest_output_size", "impl", "Digest", "output_size"),
+    ("digest", "digest_Digest_digest", "impl", "Digest", "digest"),
+    ("cipher", "cipher_StreamCipher_apply_keystream", "trait", "StreamCipher", "apply_keystream"),
+    ("cipher", "cipher_StreamCipherSeek_current_pos", "trait", "StreamCipherSeek", "current_pos"),
+    ("cipher", "cipher_StreamCipherSeek_seek", "trait", "StreamCipherSeek", "seek"),
+]
+TRAIT_FILES = {"digest": ["lib.rs", "digest.rs", "fixed.rs"], "cipher": ["stream.rs"]}
+
+TABLE_TRAITS = [
+    "digest / cipher (provided methods of traits and methods of blanket impls `impl<D: A + B> T for D`): Self / D ↦ S, GenericArray<u8, _> /",
+    "  Output<Self> ↦ O, `&[u8]` / `&mut [u8]` / `impl AsRef<[u8]>` ↦ List (BitVec 8), T: SeekNum ↦ T, Result<X, E> ↦ Option X;",
+    "  a REQUIRED trait method (no body) ↦ an Out-valued PARAMETER `Trait_method : S → args → Out (S' × &mut-args' × result)` and ONE",
+    "  Out.bind per call in program order (`&mut self` / `&mut` arguments are written back);  provided and blanket methods are INLINED;",
+    "  `self.m()` ↦ the trait among the bounds of the impl's type parameter (resp. the supertraits) that declares m, before the trait itself",
+    "  (Rust: bounds of a type parameter rank like inherent methods — `self.reset()` inside `impl Digest for D` is `Reset::reset`);",
+    "  `Trait::m(x, ..)`, `<Self as Trait>::m(x, ..)` ↦ that trait's m on x;  x.clone() ↦ x (the hashers derive Clone — checked by the struct",
+    "  inventories of phase 3);  Default::default() at type O ↦ the parameter default_out, Self::default() / at type S ↦ bind Default_default;",
+    "  r.unwrap() on Option ↦ `match r with | none => .panic \"unwrap\" | some v => ..`;  Self::X::to_usize() ↦ the parameter const_X",
+]
+
+
+def traits_inventory(inv, files, attempt):
+    trs = {}
+    for crate, rels in sorted(TRAIT_FILES.items()):
+        try:
+            if crate not in files:
+                raise TErr("no source")
+            trs[crate] = TraitTranslator(crate, [CrateFile(os.path.join(files[crate], "src", r), "%s/src/%s" % (crate, r)) for r in rels])
+        except TErr as ex:
+            inv["errors"].append("%s: %s" % (crate, ex))
+    for crate, lean, kind, trait, method in TRAIT_METHODS:
+        if crate in trs:
+            attempt(lean, lambda t=trs[crate], lean=lean, kind=kind, trait=trait, method=method: t.translate(lean, kind, trait, method))
+    # inventories: which methods the blocks define (a new provided method, or a required one that gains a body, changes them)
+    for crate, kind, trait in (("digest", "trait", "FixedOutput"), ("digest", "impl", "FixedOutput"), ("digest", "impl", "Digest"),
+                               ("digest", "trait", "Update"), ("digest", "trait", "Reset"), ("digest", "trait", "FixedOutputDirty"),
+                               ("cipher", "trait", "StreamCipher"), ("cipher", "trait", "StreamCipherSeek")):
+        if crate not in trs:
+            continue
+        try:
+            blk = trs[crate].block_of(kind, trait)
+            inv["consts"].append(("%s_%s_%s_methods" % (crate, kind, trait), "List (String × Bool)",
+                                  "[" + ", ".join("(%s, %s)" % (K._lean_str(n), "true" if blk.fns[n].body is not None else "false") for n in blk.order) + "]"))
+        except TErr as ex:
+            inv["errors"].append("%s %s %s: %s" % (crate, kind, trait, ex))
+    inv["table_extra"] += TABLE_TRAITS
+
+
 # =========================================================================== rendering
 
 PRELUDE = """\
@@ -1447,11 +1811,7 @@ def blockbuffer_inventory(repo="/repo", crate_dirs=None):
         except TErr as ex:
             inv["errors"].append("struct BlockBuffer: %s" % ex)
     # ---- digest / cipher provided methods
-    try:
-        import inventory_blockbuffer_traits as T
-        T.traits_inventory(inv, files, attempt)
-    except ImportError:
-        pass
+    traits_inventory(inv, files, attempt)
     return inv
 
 
